@@ -5,6 +5,10 @@ proof leg            lean/PlinioVerif/Props/C17.lean over Model/Checkpoint.lean 
                      harness/fieldtable.py (written only when it changed): `resume_obs_eq` for all
                      histories under protocol R, `keys_match`, and the kernel-checked
                      `gen_fields_classified` / `gen_fields_no_late` over the generated table.
+readings             "(after the usual forward pass)" qualifies every observation (outputs, cost, summary, export); what a
+                     forward recomputes (SuperNetCombiner.theta_alpha, weight ranges, bias scales) is stale until then by
+                     design -> measured and reported as an observation.  Protocol R re-applies the mode and the options that
+                     live outside the state_dict; persisted options (MPS temperature buffer) are NOT re-applied.
 correspondence leg   (a) table vs running objects: every parameter / buffer / plain attribute of every
                      PLiNIO object inside real PIT/MPS/SuperNet wrappers has the class the table (asked
                      through the Lean driver) gives it; `recomputed` fields are overwritten by a forward
@@ -112,6 +116,15 @@ def observer_call(w, spec, name):
                 w.cost
             elif name == 'get_cost':
                 w.get_cost(n)
+
+
+def option_is_persisted(spec, op):
+    """does this option call write (only) into the state_dict, according to the extracted table"""
+    if op[0] != 'opt' or om.METHOD[spec['kind']] != 'mps' or op[1] != 'temperature':
+        return False
+    tab = _table()
+    return all(tab.get(q, {}).get('temperature', {}).get('kind') in ('param', 'pbuf')
+               for q in ('MPSPerLayerQtz', 'MPSPerChannelQtz'))
 
 
 def is_config(op):
@@ -274,8 +287,12 @@ def resume(spec, history, sd, proto, modes, transplant=None, fresh_obs=()):
     saw before loading (`fresh_obs`), strict load"""
     w, shape = om.build(spec)
     if proto == 'R':
+        # protocol R, minimal form: the mode and the option calls whose target lives OUTSIDE the state_dict are
+        # re-applied; an option that is itself persisted (MPS keeps its temperature in a buffer) is left to the
+        # checkpoint -- a user has no reason to give it again, and an implementation consulting a second,
+        # non-persisted copy of it is exposed
         for op in history:
-            if is_config(op):
+            if is_config(op) and not option_is_persisted(spec, op):
                 apply_op(w, spec, op, shape)
     else:
         # the mode is the caller's choice at observation time, not state: same flags as the original
@@ -400,6 +417,13 @@ def run_case(item):
         variants[proto] = {'w': v, 'status': status, 'diff': diff, 'ckpt_bad': bad}
         if proto == 'L':
             variants[proto]['attrdiff'] = simple_attr_diff(w, v)
+    # right after loading, BEFORE the usual forward pass (not demanded, see `assumptions`): cost values
+    try:
+        pre = [tuple(repr(float(x.cost if n is None else x.get_cost(n))) for n in om.cost_names(spec))
+               for x in (w, variants['R']['w'])]
+        res['real']['cost_before_forward_eq'] = pre[0] == pre[1]
+    except Exception:
+        res['real']['cost_before_forward_eq'] = None
     o = observe(w, spec, shape, seed)
     for proto in ('R', 'L'):
         V = variants[proto]
@@ -631,6 +655,18 @@ def _run(chk):
                                 'volatile_read': [r['cls'] + '.' + r['field'] for r in rows
                                                   if r['kind'] == 'volatile' and r['read']],
                                 'late': [r['cls'] + '.' + r['field'] for r in rows if r['late']]}
+    chk.assumptions += [
+        'Reading of "(after the usual forward pass)": it qualifies the whole list -- outputs, cost values, summary and '
+        'exported network are all observed after one forward of both wrappers. State that every forward recomputes '
+        '(extracted class `recomputed`: SuperNetCombiner.theta_alpha, a plain tensor attribute; MinMaxWeight.ch_min/ch_max; '
+        'QuantizerBias._scale) is not in the checkpoint by design; read BEFORE that forward it is stale: right after '
+        'load_state_dict a SuperNet reports cost / get_cost / get_total_icv of the uniform start-up coefficients (MPS keeps '
+        'theta_alpha in a buffer, PIT has no sampled state: both agree immediately). The check measures this and reports it '
+        'as an observation, not as a violation (Lean: recomputed_field_stale_until_forward).',
+        'Protocol R (demanded reading) = same constructor arguments, same mode, the option calls whose target is outside '
+        'the state_dict re-applied (hard / gumbel / disable flags, SuperNet temperature, discrete_cost, train_* flags), strict '
+        'load, one forward. Options that are themselves persisted (the MPS temperature buffer) are NOT re-applied. The '
+        'literal reading (nothing re-applied) is run next to it; its differences are the by-design configuration findings.']
     chk.prove()
     rng = chk.rng
     # ---- cases
@@ -768,6 +804,19 @@ def _run(chk):
                 want = 'pbuf'
                 chk.corr({'class': cn, 'attribute': k, 'registered_by': 'features calculator'}, v['runtime'], want,
                          'calculator buffer registered on a layer is persistent')
+    stale = {}
+    for it, r in zip(items, results):
+        v = r['real'].get('cost_before_forward_eq')
+        if v is not None:
+            m = om.METHOD[it['spec']['kind']]
+            stale.setdefault(m, [0, 0])
+            stale[m][0 if v else 1] += 1
+    chk.extra['cost_right_after_load_before_forward'] = {m: {'equal': a, 'differs': b} for m, (a, b) in stale.items()}
+    for m, (a, b) in sorted(stale.items()):
+        if b:
+            chk.observe('%s: right after load_state_dict and before any forward, the cost of the resumed wrapper differs from '
+                        'the checkpointed one in %d of %d histories (sampled coefficients recomputed by forward are not in '
+                        'the state_dict); after the usual forward pass they agree' % (m, b, a + b))
     needed = sorted({g for r in results for g in r['real'].get('L', {}).get('needed', [])})
     chk.extra['literal_reading_config_attributes'] = needed
     if needed:
